@@ -577,6 +577,10 @@ def scope_impls(repo):
         if re.match(rf"^BumpScope\s*<\s*{lt}\s*,", t): ent = ("scope", "own")
         elif re.match(rf"^&\s*{lt}\s+Bump\s*<", t): ent = ("refBump", "refLt")
         elif re.match(rf"^&\s*{lt}\s+mut\s+Bump\s*<", t): ent = ("refMutBump", "refLt")
+        # a reference to a Bump whose lifetime is NOT the promised `'a` (elided or another name): `'a` is then bound by
+        # nothing at all — recorded as `anon`, which `sigOK` rejects
+        elif re.match(r"^&\s*('[a-z_]+\s+)?Bump\s*<", t): ent = ("refBump", "anon")
+        elif re.match(r"^&\s*('[a-z_]+\s+)?mut\s+Bump\s*<", t): ent = ("refMutBump", "anon")
         elif t == "&B" and bound_b: ent = ("refB", "forward")
         elif t == "&mut B" and bound_b: ent = ("refMutB", "forward")
         elif re.match(r"^(WithoutDealloc|WithoutShrink)\s*<\s*B\s*>$", t) and bound_b: ent = ("wrapper", "forward")
